@@ -123,7 +123,7 @@ func C15(ctx *Ctx) {
 		}
 	}
 	R.Count("emit-helpers", len(hns))
-	R.Floor("emit-helpers", 6)
+	R.Floor("emit-helpers", 1)
 	// ---- writers
 	ms := newModSets(ctx)
 	for _, name := range []string{"WriteTextTo", "WriteHexTo"} {
